@@ -12,6 +12,9 @@ CHECKS = {
  "C24": ("exploration", "bounded-exhaustive enumeration of portion vectors x amounts against an arithmetic reference",
          "Every allotment of length<=4(5) over rationals with denominator<=7(8) incl. zero portions and `remaining` at every position, times 63+ amounts incl. >2^64, is allocated by the real Allotment.Allocate and compared with floor+leftover-to-earliest reference.",
          "machine.NewAllotment/Allocate called directly; no SQL involved", "5 Group E"),
+ "C02": ("model_checking", "explicit-state enumeration of all operation sequences up to a depth bound on the real stack over pgsim, reference-model comparison after every sequence",
+         "Every sequence of length<=3 (quick) / 4 (thorough) over a 16-operation write alphabet is executed through the real system controller -> ledger controller -> store -> bun -> SQL on pgsim; volumes reported by GetAccount/ListAccounts/GetVolumesWithBalances/GetAggregatedBalances must equal the fold of committed postings (failed and dry-run writes excluded), for the live process and a freshly attached one.",
+         PGSIM_NOTE, "5 Group A"),
 }
 
 NA_REASON_PENDING = "check not built yet in this round (planned: see DESIGN.md section 5); not claimed"
